@@ -689,3 +689,7 @@ Qed.
 
 Lemma st_inv_init e : st_inv e state0.
 Proof. split; [apply sys_inv_init|intros l k d []]. Qed.
+
+(** ... and so does a start with pre-existing sys.path entries (nothing known yet) *)
+Lemma st_inv_pre e pre : st_inv e (state_pre pre).
+Proof. split; [intros p []|intros l k d []]. Qed.
